@@ -19,9 +19,10 @@ import (
 	"github.com/deadsy/sdfx/sdf"
 	. "verifharness/kit"
 	"verifharness/kit/pipe"
+	"verifharness/sysgen"
 )
 
-func main() { Main("C11", checkC11, GenBufferConsts) }
+func main() { Main("C11", checkC11, GenBufferConsts, sysgen.Gen) }
 
 type Spec struct {
 	Sink      string  `json:"sink"`      // direct3 tri stl 3mf | direct2 dxf svg
@@ -144,6 +145,10 @@ func deliver(sp Spec, dir string) (ids []int, batches []int, hasBatches bool, co
 	case "tri":
 		ts := render.ToTriangles(nil, &pipe.Script3{Producers: sp.Producers})
 		for _, t := range ts {
+			if t == nil { // a racing Write can leave a hole in a shared backing array: not among those written
+				ids = append(ids, -1)
+				continue
+			}
 			id, ok := pipe.TriID(t[0], t[1], t[2])
 			if !ok {
 				id = -1
@@ -850,11 +855,12 @@ func checkC11(c *Ctx, r *Report) error {
 	r.Coverage["thresholds"] = map[string]int{"tBufferSize": tN, "lBufferSize": lN}
 	r.Rule = "deliver cases: scripted Render3/Render2 writing numbered items (id = producer<<20 | index) through the real sdf.NewTriangle3Buffer / NewLine2Buffer into a harness-owned channel (batches visible) or render.ToTriangles / ToSTL / To3MF / ToDXF / ToSVG (files decoded by an own STL reader, go3mf's reader, yofu/dxf's parser, encoding/xml); item counts 0,1,2,N-1,N,N+1,2N-1,2N,2N+1,3N,5N-1,5N,5N+1,large; Write partitions one-write / singles / marching-cubes-like (0..5, mostly empty) / straddling the threshold / random chunks up to 2N / empty writes in between; 1..8 concurrent producers. segment cases: streams of segments with free geometry on the quarter grid (unit steps end to end along an axis, along a diagonal, a closed box outline, chained but reversed, back and forth, collinear overlapping, identical repeated, zero-length, random on 3x3 grid points, zig-zag, random) of 1,2,3,7,N-1,N+2 segments written in one Write / one by one / random chunks to the Line2Buffer collector, ToDXF and ToSVG: the sink must hold exactly the written segments, each once, in order. ops cases: random Write/Close sequences on the real buffers (writes after Close, repeated Close, no Close). Non-trivial = at least one item (deliver) or at least two operations (ops); distinct by the spec."
 	r.Trusted = append(r.Trusted,
-		"hand model coq/Sys/Buffer.v of Triangle3Buffer/Line2Buffer Write/Close and the consumer loops, tied by differential execution (cases_deliver_*.v, cases_ops_*.v): delivered sequence, batch lengths on the channel, STL count field",
+		"model coq/Sys/Buffer.v of Triangle3Buffer/Line2Buffer Write/Close and the consumer loops, tied twice: by translation (harness/sysgen extracts the statement skeleton of the four methods, of WriteTriangles / writeSTL / write3MF / writeDXF / writeSVG and of the To* drivers from the current source into Generated/SysProgs.v; Sys/BufferProg.v and Sys/PipeProg.v give those programs a small-step meaning and the C11_source_* theorems prove it equal to Buffer.step resp. a refinement of Pipeline.v) and by differential execution (cases_deliver_*.v, cases_ops_*.v): delivered sequence, batch lengths on the channel, STL count field",
+		"harness/sysgen: the classification of a Go statement as a protocol statement or as a Data statement (mentions no tracked object, no channel / lock / WaitGroup / go / defer / return / branch), the inlining of unexported helpers, and the reading of each primitive statement (Lock, append, send, ...) by the interpreters of BufferProg.v / PipeProg.v",
 		"decoders: own binary-STL reader, github.com/hpinc/go3mf reader, github.com/yofu/dxf parser, encoding/xml (harness/kit/pipe)",
 		"the Go scheduler chooses the interleavings of concurrent producers; the theorems cover all of them, the runs sample them")
 	r.Assumptions = append(r.Assumptions,
-		"every Write is atomic (sync.Mutex held from append to the channel send) - the model's step; checked dynamically only through the outcomes",
+		"atomicity of Write / Close is no longer assumed: C11_source_*_calls_atomic derives it from the extracted programs (Lock; body; Unlock around buffer statements only) for every schedule; what remains assumed is that sync.Mutex provides mutual exclusion and that a renderer touches the buffer only through Write / Close",
 		"count field modulo 2^32 is proved; files with 2^32 triangles are not produced")
 	return nil
 }
